@@ -143,6 +143,8 @@ def interpret(out, tag, ops, make, getter, ref_times, ref_states, injector, end_
             raise
         if dead:
             out.label("recovered-after-raise")
+        if faulted:
+            out.label("compute-succeeded-after-fault")
         reached = max(reached, k)
         cur = getter(obj)
         if cur is None:
